@@ -18,9 +18,14 @@ open Grammar
 
 /-! ### the full statements (kept visible; see `full_forward_false` / the `_partial` theorems) -/
 
-/-- forward direction at full strength: every documented sentence parses with zero errors -/
+/-- forward direction at full strength: every documented sentence parses with zero errors.
+Preprocessor directives are trivia (`kinds` does not contain them) and a conditional left open at
+the end of the text is an error of its own (C15), so the statement is about texts at whose end
+nothing is left in the token source: `Src.endMessage input = none` — true of every text without
+conditionals and of every well-nested arrangement (`C15.wellnested_endMessage`), decidable on a
+concrete text. -/
 def FullForward : Prop :=
-  ∀ input : List Char, Doc.Sentence (PState.init input).kinds →
+  ∀ input : List Char, Doc.Sentence (PState.init input).kinds → Src.endMessage input = none →
     ∃ r, parse input = .ok r ∧ r.errors = []
 
 /-- converse at full strength (without the trailing-separator relaxation): a clean parse means the
@@ -64,13 +69,30 @@ the regenerated table: if `syntax.md` changes a rule the fragment uses, this sto
 theorem frag_is_documented (p : C04L.Frag.Program) : Doc.Sentence p.render :=
   C04L.frag_is_documented p
 
-/-- **forward direction, partial**: any input whose token kinds are a fragment program parses with
-zero syntax errors.  Missing relative to `FullForward`: the sentences outside `Frag`
-(listed in `C04Lemmas.lean` next to the definition of `Frag`). -/
+/-- **forward direction, partial**: any input whose token kinds are a fragment program, with
+nothing left in the token source at the end of the text, parses with zero syntax errors.  Missing
+relative to `FullForward`: the sentences outside `Frag` (listed in `C04Lemmas.lean` next to the
+definition of `Frag`). -/
 theorem forward_partial (input : List Char) (p : C04L.Frag.Program)
-    (h : (PState.init input).kinds = p.render) :
+    (h : (PState.init input).kinds = p.render) (hend : Src.endMessage input = none) :
     ∃ r, parse input = .ok r ∧ r.errors = [] :=
-  C04L.forward_partial input p h
+  C04L.forward_partial input p h hend
+
+/-- the same without the side condition: whatever the end of the text is like, the errors are
+exactly what `ParserBase::finish` appends for a message left in the token source (`endErrors`:
+none, or one error at (len, len)) — the grammar functions themselves report nothing -/
+theorem forward_partial_end (input : List Char) (p : C04L.Frag.Program)
+    (h : (PState.init input).kinds = p.render) :
+    ∃ r, parse input = .ok r ∧ r.errors = endErrors input :=
+  C04L.forward_partial_end input p h
+
+/-- the side condition of `forward_partial` cannot be dropped: `include "a"` followed by an
+unterminated `#ifdef X` has the token kinds of a fragment program and is reported (C15) -/
+theorem forward_needs_clean_end :
+    ∃ (input : List Char) (p : C04L.Frag.Program), (PState.init input).kinds = p.render ∧
+      ¬ ∃ r, parse input = .ok r ∧ r.errors = [] := by
+  refine ⟨['i','n','c','l','u','d','e',' ','"','a','"','\n','#','i','f','d','e','f',' ','X'],
+    ⟨.cons .include .nil, by decide⟩, by decide +kernel, C04L.rejected_of (by decide +kernel)⟩
 
 /-- **converse, partial** (types): if the type parser reports nothing new, what it consumed is the
 rendering of a type `t`; and unless `t` uses `code` (which the documented `Type` rule lacks: a
@@ -107,7 +129,7 @@ lexes to exactly its rendering (so `forward_partial` applies to a real input) -/
 example : (PState.init C04L.Frag.sampleText).kinds = C04L.Frag.sample.render := by decide +kernel
 
 example : ∃ r, parse C04L.Frag.sampleText = .ok r ∧ r.errors = [] :=
-  forward_partial _ C04L.Frag.sample (by decide +kernel)
+  forward_partial _ C04L.Frag.sample (by decide +kernel) (by decide +kernel)
 
 /-! ### the accessor clause: every constituent is reachable, in source order, through the typed accessors
 
@@ -118,17 +140,25 @@ below the root as (start, kind, end). -/
 
 /-- **every node of the tree of a fragment program is reached by the accessor walk** -/
 theorem accessors_reach_all (input : List Char) (p : C04L.Frag.Program)
-    (h : (PState.init input).kinds = p.render) :
+    (h : (PState.init input).kinds = p.render) (hend : Src.endMessage input = none) :
     ∃ r, parse input = .ok r ∧ r.errors = [] ∧
       ∀ x ∈ C04L.allNodes r.tree, ∃ label, (label, x) ∈ C04L.reached r.tree :=
-  C04L.accessors_reach_all input p h
+  C04L.accessors_reach_all input p h hend
+
+/-- the same whatever the end of the text is like (the tree does not depend on what
+`ParserBase::finish` appends to the error list) -/
+theorem accessors_reach_all_end (input : List Char) (p : C04L.Frag.Program)
+    (h : (PState.init input).kinds = p.render) :
+    ∃ r, parse input = .ok r ∧ r.errors = endErrors input ∧
+      ∀ x ∈ C04L.allNodes r.tree, ∃ label, (label, x) ∈ C04L.reached r.tree :=
+  C04L.accessors_reach_all_end input p h
 
 /-- the same in terms of the lines `AstWalk.walkTree` prints -/
 theorem accessors_reach_all_printed (input : List Char) (p : C04L.Frag.Program)
-    (h : (PState.init input).kinds = p.render) :
+    (h : (PState.init input).kinds = p.render) (hend : Src.endMessage input = none) :
     ∃ r, parse input = .ok r ∧ r.errors = [] ∧
       ∀ x ∈ C04L.allNodes r.tree, ∃ label, C04L.fmt (label, x) ∈ AstWalk.walkTree r.tree :=
-  C04L.accessors_reach_all_printed input p h
+  C04L.accessors_reach_all_printed input p h hend
 
 /-- the structured listing is the printed one -/
 theorem walkTree_is_reached (t : Tree) : AstWalk.walkTree t = (C04L.reached t).map C04L.fmt :=
@@ -152,13 +182,13 @@ theorem accessor_source_order_strict (off : Nat) (cs : List Tree) (f : AstTable.
 /-- the local criterion behind `accessors_reach_all`: in the tree of a fragment program every node hands
 each of its child nodes to one of its accessors (`C04L.goodT`, decidable on a concrete tree) -/
 theorem every_node_accessible (input : List Char) (p : C04L.Frag.Program)
-    (h : (PState.init input).kinds = p.render) :
+    (h : (PState.init input).kinds = p.render) (hend : Src.endMessage input = none) :
     ∃ r, parse input = .ok r ∧ r.errors = [] ∧ C04L.goodT r.tree = true :=
-  C04L.forward_tree input p h
+  C04L.forward_tree input p h hend
 
 example : ∃ r, parse C04L.Frag.sampleText = .ok r ∧ r.errors = [] ∧
     ∀ x ∈ C04L.allNodes r.tree, ∃ label, (label, x) ∈ C04L.reached r.tree :=
-  accessors_reach_all _ C04L.Frag.sample (by decide +kernel)
+  accessors_reach_all _ C04L.Frag.sample (by decide +kernel) (by decide +kernel)
 
 /-- the sample's tree has 798 nodes below the root and the walk lists 798 entries (kernel evaluation of the
 parser model and of the walk) -/
